@@ -6,7 +6,7 @@ from symex import Lin, Unknown, Ref, Sym, Exec, as_lin, Enum, Closure
 from evdom import EvDomain, Ev, run_paths, _flatten
 import common
 
-TUS = ['src/File.cpp']
+TUS = ['src/File.cpp', 'src/Path.cpp']
 F = 'tulz::File'
 MODES = ['None', 'ReadText', 'Read', 'WriteText', 'Write', 'AppendText', 'Append']
 MODE_STR = {'ReadText': 'r', 'Read': 'rb', 'WriteText': 'w', 'Write': 'wb', 'AppendText': 'a', 'Append': 'ab'}
@@ -300,6 +300,10 @@ def run(facts, rep, tier):
         if ok: rep.ok('FI.4', inst, rs.shortloc())
         elif one_arg or strl: rep.violation('FI.4', inst, (one_arg or strl)[0].shortloc(), 'readStr() builds the string from a C string (stops at the first NUL)', key='FI.4|readstr', fn=rs.name)
         else: rep.inconclusive('FI.4', inst, rs.shortloc(), 'how readStr() builds its result was not recognised (neither (pointer, size) nor a lone C string)')
+    # ---- FI.6: the existence / directory tests of open() describe the same object fopen() will open ------------------------------------------
+    import C18 as _c18
+    rep.rule('PA.7', 'premise of FI.2: Path::exists() / isDirectory(), on which open() bases NotFound / NotFile, follow symbolic links exactly as the fopen() that opens the file does (no lstat / readlink)')
+    _c18._link_rules(facts, rep)
     # ---- FI.5 ----------------------------------------------------------------------------------------------------------------------
     cl = fns['close'][0]
     for is_open in (True, False):
